@@ -55,3 +55,8 @@ mod kvv_memory {
         }
     }
 }
+
+// A bounded harness for SimpleValidator::validate_justice_sweep (<= 2 outputs, mock Wallet, fabricated keys) was tried
+// here as a shape-independent second route for C09: the Kani 0.68 compiler aborts with an internal error
+// (kani-compiler/src/intrinsics.rs:243, assertion on an intrinsic's return type) while compiling the harness, and a
+// two-operation harness on MemoryKVVStore (C16) ran out of memory.  Both are recorded in DESIGN.md section 2.
